@@ -259,6 +259,7 @@ class C20(Property):
     level_note = ("Lean kernel, axioms within {propext, Classical.choice, Quot.sound}; hand-written model tied to the code by the "
                   "correspondence check only (no translator: the code is loops over sets, not a table)")
     assumptions = ["node objects behave like values with equality (ints / strings); single-threaded use (no await inside the methods)"]
+    quick_budget_s = 480          # generous: the machine may be heavily loaded
     min_nontrivial = 50
 
     # -- one history on real code, reference, and (queued) model ---------------------------------
@@ -313,7 +314,9 @@ class C20(Property):
             n *= 3
         for k in range(n):
             if ctx.out_of_time():
-                ctx.extra["incomplete"] = True
+                ctx.extra["histories_run"] = k
+                if k < 300:
+                    ctx.extra["incomplete"] = True
                 break
             dag = k % 2 == 0
             nmax = rng.choice([2, 3, 4, 5, 6, 8, 12])
